@@ -5,7 +5,7 @@ schedules; every impl trace must be accepted by System.step (coqc vm_compute) an
 Coq monitors; Python oracles judge impl's trace and final state directly (harness/syscheck.py)."""
 from harness import core, syscheck
 
-MODES = {'plain': 6, 'racing_try': 4, 'hooks': 1, 'cyclic': 1}
+MODES = {'plain': 6, 'racing_try': 4, 'hooks': 1, 'cyclic': 1, 'cancel': 2}
 
 
 def run(chk):
